@@ -469,8 +469,9 @@ def do_obligation(pid, ob, tier, scratch, fids, known):
         if '--slice-formula' in (ob.get('cbmc') or []):
             # a sliced formula yields a trace without the irrelevant nondet values, which cannot be
             # replayed in call order: re-ask the solver, unsliced, for the first failing properties only
-            traces = {}
-            for pname, desc in [f for f in r['failed'] if 'unwinding assertion' not in f[1]][:2]:
+            # (engine/vf_rt.h keeps every nondet value relevant through a 'trace-keep' property, so the
+            # sliced trace is normally complete; the unsliced re-query is the fallback)
+            for pname, desc in [f for f in r['failed'] if 'unwinding assertion' not in f[1] and not traces.get(f[0])][:2]:
                 cmd = cbmc_base(ob, cfile) + CBMC_FLAGS + BACKENDS[r['backend']] + [x for x in ob.get('cbmc', []) if x != '--slice-formula'] + ['--trace', '--property', pname]
                 cmd += uw_args(uw)
                 outp = os.path.join(wd, 'unsliced.%s.out' % re.sub(r'\W', '_', pname))
